@@ -454,3 +454,70 @@ def degenerate_routing(seed, params):
         t = t0 + int(gap * (0.5 + 0.6 * j) * 1e9)
         sim.schedule(ev(t, "start", solo if j % 2 else cli, worker=50 + j, dst=srv, size=32))
     return Scenario(sim, {"net": net, "replies": rec, "chaos": ch, "solo": solo}, "network", True, len(arr) + 9)
+
+
+# ----------------------------------------------------------------------
+# jitter that can go negative (the link clamps the *total* delay at zero)
+
+
+class SignedJitter(ExponentialLatency.__mro__[1]):  # LatencyDistribution: a public extension point
+    """Zero-mean jitter: uniform in [-width, +width] seconds from its own seeded RNG (harness distribution).
+
+    NetworkLink documents / implements `max(0.0, latency + jitter + transmission)`: a zero-mean jitter is the
+    natural model and its negative samples may exceed the base latency."""
+
+    def __init__(self, width: float, seed: int):
+        super().__init__(0.0)
+        self.width = float(width)
+        self._rng = random.Random(seed)
+
+    def get_latency(self, current_time):
+        from happysimulator.core.temporal import Duration
+
+        return Duration.from_seconds(self._rng.uniform(-self.width, self.width))
+
+
+@scenario("network.signed_jitter_links", "network")
+def signed_jitter_links(seed, params):
+    """Links whose jitter can be negative and larger than the base latency (+ transmission time):
+    seeded zero-mean uniform jitter 0.5x / 3x / 50x the latency, and the library's own shifted constant
+    (`ConstantLatency(a) - b`, negative); with and without bandwidth; egress links and Network routes."""
+    p = P(params, seed)
+    net = Network(name="net")
+    rec = Recorder("replies")
+    n = p.count(0, 4, lo=2, hi=9)
+    receivers = [_echo_server(f"rcv{i}", net, p.lat(1)) for i in range(n)]
+    direct = Recorder("direct")
+
+    def sender(proc, event):
+        md = event.context["metadata"]
+        if event.event_type == "Reply":
+            rec.received += 1
+            return None
+        proc.done += 1
+        return [
+            net.send(proc, r, "Request", payload={"rid": md["worker"], "reply_to": proc, "payload_size": 100 * (1 + j % 3)})
+            for j, r in enumerate(receivers)
+        ]
+
+    snd = Proc("sender", sender)
+    widths = (0.5, 3.0, 50.0)
+    for j, r in enumerate(receivers):
+        lat = p.lat(j)
+        if j % 4 == 3:
+            jit = ConstantLatency(lat) - (lat * 3)  # the library's own arithmetic: a constant negative "jitter"
+        else:
+            jit = SignedJitter(lat * widths[j % 3], seed * 101 + j)
+        link = NetworkLink(
+            name=f"l_{r.name}", latency=ConstantLatency(lat), jitter=jit,
+            bandwidth_bps=None if j % 2 else 8_000_003.0, packet_loss_rate=0.0,
+        )  # fmt: skip
+        net.add_bidirectional_link(snd, r, link)
+    # a stand-alone link used directly (egress), negative jitter far beyond the latency
+    lone = NetworkLink(name="lone", latency=ConstantLatency(p.lat(0)), jitter=SignedJitter(p.lat(0) * 20, seed + 7), egress=direct)
+    arr = p.arrivals(6)
+    sim = make_sim([net, rec, snd, lone, direct, *receivers], p.end())
+    for i, t in enumerate(arr):
+        sim.schedule(ev(t, "start", snd, worker=i))
+        sim.schedule(ev(t, "Packet", lone, n=i))
+    return Scenario(sim, {"net": net, "replies": rec, "lone": lone, "direct": direct}, "network", True, 2 * len(arr))
